@@ -215,3 +215,18 @@ PROPS["C20"] = dict(
           "rejected by the unmarshaler, JSON object, JSON number, absent}; through NewStore{Structs} and through ParseFields+Apply on a lookup-enabled store; non-pointer and non-struct "
           "arguments; after population every []byte field is overwritten and the store is read again; a case is (path, parse outcome, #fields, apply error?, store available?)"),
 )
+
+
+def updater_shards(tier, seed, search=False):
+    k, n, steps = (4, 300, 30) if tier == "quick" else (16, 3000, 50)
+    return [Shard("updater", ["-seed", str(s), "-n", str(n), "-steps", str(steps)], driver="updater", binary="storetrace") for s in seeds(seed, k)]
+
+
+PROPS["C15"] = dict(
+    shards=updater_shards,
+    trusted=STORE_TRUST + ["the model's atomic steps are the code's critical sections: install+notify under the store lock; drain / read / build-and-swap under the updater's mutex"],
+    assumptions=["interleavings of installs with the sub-steps of one Get are covered by the theorem; the harness drives sequential histories plus updaters created while a poll is in flight (concurrent Get callers are exercised under the race detector by C12's family)"],
+    rule=("1-4 updaters on one secret with a counting-closer value type: 0..n installs between Gets (via the scripted service + Refresh), builder failing on scripted versions, updaters created "
+          "at arbitrary points including between a poll's fetch and its apply; observed per Get: source bytes and identity of the returned value, Err, number of builder runs, Close counts; "
+          "a case is (rebuild or keep, build outcome, installs since the previous Get)"),
+)
